@@ -33,6 +33,9 @@ use std::{
 
 mod internal_metrics;
 
+#[cfg(emit_rs_emit_verif)]
+pub mod verif;
+
 /**
 A channel between a shared [`Sender`] and exclusive [`Receiver`].
 
@@ -168,7 +171,13 @@ pub struct Sender<T> {
 
 impl<T> Drop for Sender<T> {
     fn drop(&mut self) {
+        #[cfg(emit_rs_emit_verif)]
+        verif::event("drop_sender_begin", verif::chan(&self.shared), None, 0, 0);
+
         self.shared.state.lock().unwrap().is_open = false;
+
+        #[cfg(emit_rs_emit_verif)]
+        verif::event("drop_sender_end", verif::chan(&self.shared), None, 0, 0);
     }
 }
 
@@ -179,7 +188,13 @@ impl<T: Channel> Sender<T> {
     The item will be processed at some future point by the [`Receiver`]. If pushing the item would overflow the maximum capacity of the channel it will be cleared first.
     */
     pub fn send<'a>(&self, msg: T::Item) {
+        #[cfg(emit_rs_emit_verif)]
+        verif::point("send");
+
         let mut state = self.shared.state.lock().unwrap();
+
+        #[cfg(emit_rs_emit_verif)]
+        let verif_truncated = state.next_batch.channel.len() >= self.max_capacity;
 
         // If the channel is full then drop it; this prevents OOMing
         // when the destination is unavailable. We don't notify the batch
@@ -191,10 +206,28 @@ impl<T: Channel> Sender<T> {
 
         // If the channel is closed then return without adding the message
         if !state.is_open {
+            #[cfg(emit_rs_emit_verif)]
+            verif::event(
+                "send",
+                verif::chan(&self.shared),
+                Some(verif::snapshot(&state)),
+                verif_truncated as usize,
+                0,
+            );
+
             return;
         }
 
         state.next_batch.channel.push(msg);
+
+        #[cfg(emit_rs_emit_verif)]
+        verif::event(
+            "send",
+            verif::chan(&self.shared),
+            Some(verif::snapshot(&state)),
+            verif_truncated as usize,
+            1,
+        );
     }
 
     /**
@@ -203,9 +236,21 @@ impl<T: Channel> Sender<T> {
     The item will be processed at some future point by the [`Receiver`]. If pushing the item would overflow the maximum capacity of the channel then this method will return `Err`.
     */
     pub fn try_send<'a>(&self, msg: T::Item) -> Result<(), BatchError<T::Item>> {
+        #[cfg(emit_rs_emit_verif)]
+        verif::point("try_send");
+
         let mut state = self.shared.state.lock().unwrap();
 
         if !state.is_open {
+            #[cfg(emit_rs_emit_verif)]
+            verif::event(
+                "try_send",
+                verif::chan(&self.shared),
+                Some(verif::snapshot(&state)),
+                2,
+                0,
+            );
+
             return Err(BatchError::no_retry(TrySendError("the channel is closed")));
         }
 
@@ -213,8 +258,26 @@ impl<T: Channel> Sender<T> {
         if state.next_batch.channel.len() < self.max_capacity {
             state.next_batch.channel.push(msg);
 
+            #[cfg(emit_rs_emit_verif)]
+            verif::event(
+                "try_send",
+                verif::chan(&self.shared),
+                Some(verif::snapshot(&state)),
+                0,
+                0,
+            );
+
             Ok(())
         } else {
+            #[cfg(emit_rs_emit_verif)]
+            verif::event(
+                "try_send",
+                verif::chan(&self.shared),
+                Some(verif::snapshot(&state)),
+                1,
+                0,
+            );
+
             Err(BatchError::retry(TrySendError("the channel is full"), msg))
         }
     }
@@ -261,6 +324,9 @@ impl<T: Channel> Sender<T> {
     The watcher is guaranteed to trigger at a point where the current batch is empty.
     */
     pub fn when_empty(&self, f: impl FnOnce() + Send + 'static) {
+        #[cfg(emit_rs_emit_verif)]
+        verif::point("when_empty");
+
         let mut state = self.shared.state.lock().unwrap();
 
         // If:
@@ -268,11 +334,29 @@ impl<T: Channel> Sender<T> {
         // Then:
         // - Call the watcher without scheduling it; there's nothing to wait for
         if state.next_batch.channel.is_empty() {
+            #[cfg(emit_rs_emit_verif)]
+            verif::event(
+                "when_empty",
+                verif::chan(&self.shared),
+                Some(verif::snapshot(&state)),
+                1,
+                0,
+            );
+
             drop(state);
 
             f();
         } else {
             state.next_batch.watchers.push_on_take(Box::new(f));
+
+            #[cfg(emit_rs_emit_verif)]
+            verif::event(
+                "when_empty",
+                verif::chan(&self.shared),
+                Some(verif::snapshot(&state)),
+                0,
+                0,
+            );
         }
     }
 
@@ -282,6 +366,9 @@ impl<T: Channel> Sender<T> {
     The watcher is guaranteed to trigger at a point where the batch that was processing at the time this call was made has completed.
     */
     pub fn when_flushed(&self, f: impl FnOnce() + Send + 'static) {
+        #[cfg(emit_rs_emit_verif)]
+        verif::point("when_flushed");
+
         let mut state = self.shared.state.lock().unwrap();
 
         // If:
@@ -291,6 +378,15 @@ impl<T: Channel> Sender<T> {
         // Then:
         // - Call the watcher without scheduling it; there's nothing to flush
         if !state.is_in_batch && (state.next_batch.channel.is_empty() || !state.is_open) {
+            #[cfg(emit_rs_emit_verif)]
+            verif::event(
+                "when_flushed",
+                verif::chan(&self.shared),
+                Some(verif::snapshot(&state)),
+                1,
+                0,
+            );
+
             // Drop the lock before signalling the watcher
             drop(state);
 
@@ -299,6 +395,15 @@ impl<T: Channel> Sender<T> {
         // If there's active data to flush then schedule the watcher
         else {
             state.next_batch.watchers.push_on_flush(Box::new(f));
+
+            #[cfg(emit_rs_emit_verif)]
+            verif::event(
+                "when_flushed",
+                verif::chan(&self.shared),
+                Some(verif::snapshot(&state)),
+                0,
+                0,
+            );
         }
     }
 
@@ -329,7 +434,13 @@ pub struct Receiver<T> {
 
 impl<T> Drop for Receiver<T> {
     fn drop(&mut self) {
+        #[cfg(emit_rs_emit_verif)]
+        verif::event("drop_receiver_begin", verif::chan(&self.shared), None, 0, 0);
+
         self.shared.state.lock().unwrap().is_open = false;
+
+        #[cfg(emit_rs_emit_verif)]
+        verif::event("drop_receiver_end", verif::chan(&self.shared), None, 0, 0);
 
         // NOTE: If the sender is waiting for a flush it may time out
         // This is more accurate than triggering it on drop here even if
@@ -361,6 +472,9 @@ impl<T: Channel> Receiver<T> {
         loop {
             // Run inside the lock
             let (mut current_batch, is_open) = {
+                #[cfg(emit_rs_emit_verif)]
+                verif::point("recv_lock");
+
                 let mut state = self.shared.state.lock().unwrap();
 
                 // NOTE: We don't check the `is_open` value here because we want a chance to emit
@@ -371,6 +485,16 @@ impl<T: Channel> Receiver<T> {
                 if state.next_batch.channel.len() > 0 {
                     state.is_in_batch = true;
 
+                    // The snapshot is taken just before the swap: `pending` is the size of the batch taken
+                    #[cfg(emit_rs_emit_verif)]
+                    verif::event(
+                        "take",
+                        verif::chan(&self.shared),
+                        Some(verif::snapshot(&state)),
+                        0,
+                        0,
+                    );
+
                     (
                         mem::replace(&mut state.next_batch, mem::take(&mut next_batch)),
                         state.is_open,
@@ -379,6 +503,16 @@ impl<T: Channel> Receiver<T> {
                 // If there are no events to emit then mark that we're outside of a batch and take its watchers
                 else {
                     state.is_in_batch = false;
+
+                    // The snapshot is taken just before the watchers are taken
+                    #[cfg(emit_rs_emit_verif)]
+                    verif::event(
+                        "take_empty",
+                        verif::chan(&self.shared),
+                        Some(verif::snapshot(&state)),
+                        0,
+                        0,
+                    );
 
                     let watchers = mem::take(&mut state.next_batch.watchers);
                     let open = state.is_open;
@@ -409,16 +543,38 @@ impl<T: Channel> Receiver<T> {
 
                 // Emit the batch, taking care not to panic
                 loop {
+                    #[cfg(emit_rs_emit_verif)]
+                    verif::event(
+                        "attempt",
+                        verif::chan(&self.shared),
+                        None,
+                        current_batch.channel.len(),
+                        0,
+                    );
+
                     match panic::catch_unwind(AssertUnwindSafe(|| on_batch(current_batch.channel)))
                     {
                         Ok(on_batch_future) => {
                             match CatchUnwind(AssertUnwindSafe(on_batch_future)).await {
                                 Ok(Ok(())) => {
                                     self.shared.metrics.queue_batch_processed.increment();
+
+                                    #[cfg(emit_rs_emit_verif)]
+                                    verif::event("attempt_ok", verif::chan(&self.shared), None, 0, 0);
+
                                     break;
                                 }
                                 Ok(Err(BatchError { retryable })) => {
                                     self.shared.metrics.queue_batch_failed.increment();
+
+                                    #[cfg(emit_rs_emit_verif)]
+                                    verif::event(
+                                        "attempt_failed",
+                                        verif::chan(&self.shared),
+                                        None,
+                                        retryable.is_some() as usize,
+                                        retryable.as_ref().map(|r| r.len()).unwrap_or(0),
+                                    );
 
                                     if let Some(retryable) = retryable {
                                         if retryable.len() > 0 && self.retry.next() {
@@ -440,16 +596,45 @@ impl<T: Channel> Receiver<T> {
                                 }
                                 Err(_) => {
                                     self.shared.metrics.queue_batch_panicked.increment();
+
+                                    #[cfg(emit_rs_emit_verif)]
+                                    verif::event(
+                                        "attempt_panicked",
+                                        verif::chan(&self.shared),
+                                        None,
+                                        1,
+                                        0,
+                                    );
+
                                     break;
                                 }
                             }
                         }
                         Err(_) => {
                             self.shared.metrics.queue_batch_panicked.increment();
+
+                            #[cfg(emit_rs_emit_verif)]
+                            verif::event(
+                                "attempt_panicked",
+                                verif::chan(&self.shared),
+                                None,
+                                0,
+                                0,
+                            );
+
                             break;
                         }
                     }
                 }
+
+                #[cfg(emit_rs_emit_verif)]
+                verif::event(
+                    "batch_end",
+                    verif::chan(&self.shared),
+                    None,
+                    current_batch.watchers.on_flush.len(),
+                    0,
+                );
 
                 // After the batch has been emitted, notify any watchers
                 current_batch.watchers.notify_on_flush();
@@ -462,6 +647,9 @@ impl<T: Channel> Receiver<T> {
                 // If the channel is closed then exit the loop and return; this will
                 // drop the receiver
                 if !is_open {
+                    #[cfg(emit_rs_emit_verif)]
+                    verif::event("exec_return", verif::chan(&self.shared), None, 0, 0);
+
                     return;
                 }
 
@@ -588,6 +776,11 @@ impl Delay {
 
     fn next(&mut self) -> Duration {
         self.current = cmp::min(self.current * 2 + self.step, self.max);
+
+        #[cfg(emit_rs_emit_verif)]
+        return verif::scale_delay(self.current);
+
+        #[cfg_attr(emit_rs_emit_verif, allow(unreachable_code))]
         self.current
     }
 }
